@@ -1,18 +1,24 @@
 P = {
-    "gens": ["C02rules", "C01parse"],
+    "gens": ["C02rules", "C01parse", "C02produce"],
     "theorems": ["C02_accept_sound", "C02_checkvalid_sound", "C02_valid_accepted"],
     "rule": "C02rules: for each CRC type, encodings (own CBOR writer, CRCs recomputed) that violate exactly one rule: version, "
             "payload missing/twice/not last/number, duplicate numbers/types, 11 kinds of bad endpoint ID in 4 positions, each "
             "flag contradiction, zero time without age, age/lifetime, expiry, hop count, array lengths, unknown CRC types, "
             "CRC field presence, wrong CRC, non-minimal heads, nested invalid IDs, signature lengths - plus the tolerated "
             "layouts (named ok.*); the property checker demands rejection of every non-ok case and acceptance of every ok "
-            "case, and re-evaluates the rule set on what the parser returned. C01parse adds random valid bundles and mutants.",
+            "case, and re-evaluates the rule set on what the parser returned. C01parse adds random valid bundles and mutants. "
+            "C02produce (second sentence): random builder call sequences with Build calls interleaved (earlier results re-checked at "
+            "the end), random BuildFromMap argument maps, Fragment and ReassembleFragments of received bundles with arbitrary wire "
+            "order and flags, AddExtensionBlock on received bundles, and every bundle a running Core hands to a convergence layer "
+            "under each routing algorithm (forwarded bundles, status reports, pongs, DTLSR/PRoPHET/spray metadata): each produced "
+            "bundle must be accepted by the real parser and by the model decoder.",
     "assumptions": ["see C01"],
     "trusted_base": ["see C01"],
     "level_text": "Soundness theorem: the parser model accepts only bundles satisfying the declarative rule record WellFormed, "
                   "for all byte strings; completeness for valid in-range bundles from the round trip. The rule-violation "
                   "generator makes each single rule observable on the real parser.",
-    "level_note": "Producer side (Builder, BuildFromMap, Fragment, reassembly, status reports, pongs, metadata bundles) is covered "
-                  "through C02_valid_accepted (whatever ends with CheckValid is accepted) and by the correspondence runs of "
-                  "C09/C10/C15 on real outputs; the builder's call-sequence semantics is not modelled (partial).",
+    "level_note": "Producer side (Builder, BuildFromMap, Fragment, reassembly, status reports, pongs, metadata bundles): the theorem "
+                  "C02_valid_accepted says whatever passes CheckValid is accepted by the parser; that each producer's output "
+                  "passes is checked on real outputs by C02produce with the model decoder as oracle (the builder's call-sequence "
+                  "semantics is not modelled: partial for that clause).",
 }
